@@ -400,7 +400,7 @@ def class_methods(index, cls, include_inherited=False):
 
 
 def methods_calling(cls, *names):
-    return [f for f in cls.methods.values() if func_calls_method(f, *names)]
+    return [f for f in cls.live_methods() if func_calls_method(f, *names)]
 
 
 def one(items, what):
@@ -908,3 +908,25 @@ def guarded_by_atoms(ctx, func, graph, site, atom_pred, nz=None,
         graph, site,
         lambda e: edge_establishes(ctx, func, nz, e, atom_pred),
         start=start, follow_exc=follow_exc)
+
+
+def absorbed(ctx, func):
+    """``func`` is a private helper whose every call site was inlined into
+    its callers: it is analysed there, in context, and need not (must not)
+    be judged on its own."""
+    index = ctx.index
+    # make sure the module's functions were expanded
+    for other in func.module.live_functions():
+        other.node  # pylint: disable=pointless-statement
+    stats = getattr(index, 'inline_stats', {})
+    totals = getattr(index, 'inline_totals', {})
+    sites = stats.get(func.fq)
+    if not sites:
+        return False
+    return len(sites) >= totals.get(func.fq, 10 ** 6)
+
+
+def live_methods(ctx, cls):
+    """Methods of a class that are analysed on their own (helpers absorbed
+    by inlining are skipped)."""
+    return [f for f in cls.live_methods() if not absorbed(ctx, f)]
